@@ -12,6 +12,7 @@ import (
 // timedPQSUT binds runtime/timed.PriorityQueue[pqElem] to module TimedPriorityQueue.  Times are the fixed
 // synthetic instants time.Unix(t, 0); no clock is read.
 type timedPQSUT struct {
+	wide bool
 	q    timed.PriorityQueue[pqElem]
 	live map[int]bool // recorder bookkeeping for Push's precondition
 }
@@ -19,6 +20,24 @@ type timedPQSUT struct {
 func init() { core.Register("TimedPriorityQueue", func() core.SUT { return &timedPQSUT{} }) }
 
 func synthTime(t int) time.Time { return time.Unix(int64(t), 0) }
+
+// wideTimes: the abstract instants 0,1,2,... as instants spread over the whole range of time.Time (clock "wide")
+var wideTimes = []time.Time{
+	{}, // the zero Time (year 1)
+	time.Date(1600, 1, 1, 0, 0, 0, 0, time.UTC),
+	time.Date(1970, 1, 1, 0, 0, 0, 0, time.UTC),
+	time.Date(2262, 4, 11, 23, 47, 16, 0, time.UTC),
+	time.Date(2262, 4, 12, 0, 0, 0, 0, time.UTC),
+	time.Date(9999, 12, 31, 23, 59, 59, 0, time.UTC),
+	time.Date(9999, 12, 31, 23, 59, 59, 1, time.UTC),
+}
+
+func (s *timedPQSUT) time(t int) time.Time {
+	if s.wide && t >= 0 && t < len(wideTimes) {
+		return wideTimes[t]
+	}
+	return synthTime(t)
+}
 
 func (s *timedPQSUT) Reset(cfg core.Ev) {
 	switch core.Str(cfg, "order") {
@@ -30,6 +49,7 @@ func (s *timedPQSUT) Reset(cfg core.Ev) {
 		s.q = timed.NewPriorityQueue[pqElem]()
 	}
 	s.live = map[int]bool{}
+	s.wide = core.Str(cfg, "clock") == "wide"
 }
 
 func (s *timedPQSUT) st() any {
@@ -50,7 +70,7 @@ func (s *timedPQSUT) Apply(e core.Ev) (any, any) {
 	switch core.Str(e, "op") {
 	case "Push":
 		h, t := core.Int(e, "h"), core.Int(e, "t")
-		s.q.Push(pqElem{h, t}, synthTime(t))
+		s.q.Push(pqElem{h, t}, s.time(t))
 		s.live[h] = true
 		return "done", s.st()
 	case "Peek":
@@ -63,7 +83,7 @@ func (s *timedPQSUT) Apply(e core.Ev) (any, any) {
 		}
 		return core.Opt(ok, elemJSON(el)), s.st()
 	case "PopUntil":
-		es := s.q.PopUntil(synthTime(core.Int(e, "t")))
+		es := s.q.PopUntil(s.time(core.Int(e, "t")))
 		s.gone(es...)
 		return elemsJSON(es), s.st()
 	case "PopAll":
@@ -79,7 +99,7 @@ func (s *timedPQSUT) Apply(e core.Ev) (any, any) {
 }
 
 func (s *timedPQSUT) RandomCfg(r *rand.Rand) core.Ev {
-	return core.Ev{"order": core.Pick(r, "asc", "desc", "default")}
+	return core.Ev{"order": core.Pick(r, "asc", "desc", "default"), "clock": core.Pick(r, "unix", "wide")}
 }
 
 func (s *timedPQSUT) RandomStimulus(r *rand.Rand) core.Ev {
